@@ -1045,3 +1045,110 @@ Proof.
       rewrite Hw0. simpl map_res. rewrite H1. simpl bind. eexists. split; [reflexivity|]. split; [reflexivity|].
       rewrite Er, Em. simpl List.concat. rewrite H2. simpl bind. rewrite H3. reflexivity.
 Qed.
+
+(* ================= part 8: store level ================= *)
+
+Lemma map_res_app : forall A B (f : A -> res B) l1 l2 r1 r2,
+  map_res f l1 = Ok r1 -> map_res f l2 = Ok r2 -> map_res f (l1 ++ l2) = Ok (r1 ++ r2).
+Proof.
+  induction l1 as [|a l1 IH]; simpl; intros l2 r1 r2 H1 H2.
+  - inversion H1; subst. exact H2.
+  - destruct (f a); try discriminate. destruct (map_res f l1) as [l| |] eqn:E; try discriminate.
+    inversion H1; subst. rewrite (IH l2 l r2 eq_refl H2). reflexivity.
+Qed.
+
+Lemma find_top_nodup : forall tops t, nodup_s (map tl_list tops) = true -> In t tops ->
+  find_top (tl_list t) tops = Some t.
+Proof.
+  induction tops as [|t0 tops IH]; simpl; intros t Hn Hi. contradiction.
+  apply andb_true_iff in Hn. destruct Hn as [H1 H2]. apply negb_true_iff in H1.
+  destruct Hi as [Hi|Hi].
+  - subst. rewrite seqb_refl. reflexivity.
+  - destruct (String.eqb (tl_list t) (tl_list t0)) eqn:E.
+    + apply seqb_eq in E. assert (In (tl_list t) (map tl_list tops)) by (apply in_map; assumption).
+      rewrite E in H. apply smem_true in H. congruence.
+    + apply IH; auto.
+Qed.
+
+Section Store.
+Variable M : meta.
+Variable W : wtables.
+Variable R : rtables.
+Variable pairs : list triple.
+Variable fl : string -> string -> bool.
+Hypothesis Hcompat : compat M W R pairs = true.
+Variable tops : list toplist.
+Hypothesis Htops : forall t, In t tops -> tmem (tl_fn t, tl_cls t, tl_ctor t) pairs = true.
+Hypothesis Hnd : nodup_s (map tl_list tops) = true.
+Variable n : nat.
+Variable objs : list value.
+Hypothesis Hwf : forall v, In v objs -> wfb M n v = true.
+
+Definition mine (t : toplist) := filter (fun v => String.eqb (cls_of v) (tl_cls t)) objs.
+Definition read_back := flat_map mine tops.
+
+Lemma items_rt : forall t, In t tops -> forall l, (forall v, In v l -> In v (mine t)) ->
+  exists ks, map_res (enc_obj fl W n (tl_fn t) (tl_item t)) l = Ok ks /\
+    map_res (fun e => if String.eqb (xtag e) (tl_item t) then dec_obj R M n (tl_ctor t) e else Err) ks = Ok l.
+Proof.
+  intros t Ht. induction l as [|v l IH]; intros Hl.
+  - exists []. auto.
+  - destruct IH as [ks [H1 H2]]. intros; apply Hl; right; assumption.
+    assert (Hv : In v (mine t)) by (apply Hl; left; reflexivity).
+    unfold mine in Hv. apply filter_In in Hv. destruct Hv as [Hv Hc]. apply seqb_eq in Hc.
+    destruct (roundtrip M W R pairs fl Hcompat n (tl_fn t) (tl_cls t) (tl_ctor t) v (tl_item t) (Htops t Ht) Hc (Hwf v Hv))
+      as [x [Hx [Hxt Hd]]].
+    exists (x :: ks). simpl. rewrite Hx, H1. split; auto. rewrite Hxt. rewrite seqb_refl. rewrite Hd, H2. reflexivity.
+Qed.
+
+Definition wtop (t : toplist) : res (list xml) :=
+  match mine t with
+  | [] => Ok []
+  | _ => bind (map_res (enc_obj fl W n (tl_fn t) (tl_item t)) (mine t)) (fun ks => Ok [XE (tl_list t) None ks]) end.
+Definition rlist (l : xml) : res (list value) :=
+  match find_top (xtag l) tops with
+  | None => Err
+  | Some t => map_res (fun e => if String.eqb (xtag e) (tl_item t) then dec_obj R M n (tl_ctor t) e else Err) (xkids l)
+  end.
+Definition groups (t : toplist) : list (list value) := match mine t with [] => [] | _ => [mine t] end.
+
+Lemma wtop_rt : forall t, In t tops -> exists ks, wtop t = Ok ks /\ map_res rlist ks = Ok (groups t).
+Proof.
+  intros t Ht. destruct (items_rt t Ht (mine t) (fun v H => H)) as [ks [H3 H4]].
+  unfold wtop, groups. destruct (mine t) as [|v0 l0] eqn:Em.
+  - exists []. auto.
+  - rewrite H3. simpl bind. exists [XE (tl_list t) None ks]. split; [reflexivity|].
+    simpl. unfold rlist. simpl xtag. rewrite (find_top_nodup tops t Hnd Ht). simpl xkids. rewrite H4. reflexivity.
+Qed.
+
+Lemma tops_rt : forall ts, (forall t, In t ts -> In t tops) ->
+  exists kss, map_res wtop ts = Ok kss /\ map_res rlist (List.concat kss) = Ok (flat_map groups ts).
+Proof.
+  induction ts as [|t ts IH]; intros Hts.
+  - exists []. auto.
+  - destruct IH as [kss [H1 H2]]. intros; apply Hts; right; assumption.
+    destruct (wtop_rt t (Hts t (or_introl eq_refl))) as [ks [H3 H4]].
+    exists (ks :: kss). simpl. rewrite H3, H1. split; [reflexivity|].
+    apply map_res_app; assumption.
+Qed.
+
+Lemma groups_concat : forall ts, List.concat (flat_map groups ts) = flat_map mine ts.
+Proof.
+  induction ts as [|t ts IH]; simpl; auto. rewrite concat_app. rewrite IH. f_equal.
+  unfold groups. destruct (mine t); simpl; auto. rewrite app_nil_r. reflexivity.
+Qed.
+
+Theorem store_roundtrip : forall seen, add_all [] read_back = Ok seen ->
+  exists x, write_store fl W tops n objs = Ok x /\ read_store R M tops n x = Ok read_back.
+Proof.
+  intros seen Hids.
+  destruct (tops_rt tops (fun t H => H)) as [kss [H1 H2]].
+  exists (XE "environment" None (List.concat kss)). split.
+  - change (write_store fl W tops n objs) with
+      (bind (map_res wtop tops) (fun kss => Ok (XE "environment" None (List.concat kss)))).
+    rewrite H1. reflexivity.
+  - change (read_store R M tops n (XE "environment" None (List.concat kss))) with
+      (bind (map_res rlist (List.concat kss)) (fun vss => let vs := List.concat vss in bind (add_all [] vs) (fun _ => Ok vs))).
+    rewrite H2. simpl bind. rewrite groups_concat. fold read_back. rewrite Hids. reflexivity.
+Qed.
+End Store.
